@@ -14,7 +14,11 @@
 //    answer of the kernel that no oracle judges by itself.
 //  * every send call on a client descriptor is also recorded as a token of the ordered event trace
 //    the property monitor reads (serverwrite_kernel.h).
-// Up to two client descriptors (A = 0, B = 1).  C interface only (no nstd headers here).
+//  * epoll_wait also tells the trace what the kernel finds when asked: O<i> socket writable, I<i> unread input.
+//  * `sk_with_interrupt`: the interrupt event is reported in the SAME batch as the scripted client events (a real
+//    kernel does that whenever interrupt() races with readiness): Poll::poll keeps the batch cached and returns
+//    without flags; the following run() hands the cached events out.
+// Up to SK_NC client descriptors (A = 0, B = 1, ...).  C interface only (no nstd headers here).
 #include <stdio.h>
 #include <stdlib.h>
 #include <string.h>
@@ -24,6 +28,7 @@
 #include <sys/types.h>
 #include <sys/socket.h>
 #include <sys/epoll.h>
+#include <sys/ioctl.h>
 #include "serverwrite_kernel.h"
 
 typedef ssize_t (*send_fn)(int, const void*, size_t, int);
@@ -54,8 +59,8 @@ static void b_add(Bytes& b, const void* d, size_t n)
   b.n += n;
 }
 
-#define NC 2
-static int client_fd[NC] = {-1, -1}, peer_fd[NC] = {-1, -1};
+#define NC SK_NC
+static int client_fd[NC] = {-1, -1, -1, -1}, peer_fd[NC] = {-1, -1, -1, -1};
 static int peer_open[NC];
 static sk_outcomes outq;
 static Bytes tx_log[NC], peer_rx[NC];
@@ -63,7 +68,7 @@ static char sendlog[1024]; static size_t sendlog_n = 0;
 static Bytes trace, trace_copy;
 static int tag_sends = 0;
 static int registered[NC]; static unsigned reg_mask[NC]; static epoll_data_t reg_data[NC];
-static int ev_mode = SK_EV_OFF; static int phase = 2;
+static int ev_mode = SK_EV_OFF; static int phase = 2; static int with_intr = 0; static int intr_seen = 0;
 static int ev_n = 0; static int ev_idx[8]; static unsigned ev_native[8];
 // every registration seen (a client is registered by Server::pair before the harness knows its descriptor)
 struct Reg { int fd; int on; unsigned mask; epoll_data_t data; };
@@ -92,7 +97,7 @@ extern "C" void sk_reset()
   outq.n = 0;
   sendlog_n = 0; sendlog[0] = 0; tag_sends = 0;
   trace.n = 0;
-  ev_mode = SK_EV_OFF; ev_n = 0; phase = 2;
+  ev_mode = SK_EV_OFF; ev_n = 0; phase = 2; with_intr = 0; intr_seen = 0;
   nregs = 0;
 }
 
@@ -108,7 +113,9 @@ extern "C" void sk_set_outcome(int kind, long k) { outq.n = 0; if(kind != SK_NON
 extern "C" void sk_push_outcome(int kind, long k) { if(outq.n < SK_MAXQ) { outq.kind[outq.n] = kind; outq.k[outq.n] = k; ++outq.n; } }
 extern "C" void sk_get_outcomes(sk_outcomes* o) { *o = outq; }
 extern "C" void sk_put_outcomes(const sk_outcomes* o) { outq = *o; }
-extern "C" void sk_arm_event(int mode) { ev_mode = mode; ev_n = 0; phase = 0; }
+extern "C" void sk_arm_event(int mode) { ev_mode = mode; ev_n = 0; phase = 0; with_intr = 0; intr_seen = 0; }
+extern "C" void sk_with_interrupt(int on) { with_intr = on; }
+extern "C" int sk_interrupt_seen() { return intr_seen; }
 extern "C" void sk_add_event(int idx, unsigned native) { if(ev_n < 8) { ev_idx[ev_n] = idx; ev_native[ev_n] = native; ++ev_n; } }
 extern "C" void sk_disarm_event() { ev_mode = SK_EV_OFF; phase = 2; }
 
@@ -180,11 +187,11 @@ extern "C" ssize_t send(int fd, const void* data, size_t n, int flags)
   switch(kind) {
   case SK_WOULDBLOCK: log_send(idx, n, -1, note); trace_send(idx, n, -1, 'w', unscripted); errno = EAGAIN; return -1;
   case SK_ERROR: log_send(idx, n, -1, note); trace_send(idx, n, -1, 'f', 0); errno = ECONNRESET; return -1;
-  case SK_ZERO: log_send(idx, n, 0, note); trace_send(idx, n, 0, 'f', 0); return 0;
+  case SK_ZERO: log_send(idx, n, 0, note); trace_send(idx, n, 0, n ? 'f' : 'z', 0); return 0;
   case SK_FULL: r = (long)n; break;
   default: r = k < 1 ? 1 : k; if((size_t)r > n) r = (long)n; break;
   }
-  trace_send(idx, n, r, r > 0 ? 't' : 'f', 0);      // a send of 0 bytes returns 0: the library takes that for a closed connection
+  trace_send(idx, n, r, r > 0 ? 't' : n ? 'f' : 'z', 0);   // a send of 0 bytes returns 0: the library takes that for a closed connection
   // the kernel takes r bytes: they are now the operating system's, in this order
   b_add(tx_log[idx], data, (size_t)r);
   if(peer_open[idx]) {
@@ -226,19 +233,31 @@ extern "C" int epoll_wait(int epfd, struct epoll_event* events, int maxevents, i
     phase = 1;
     if(ev_mode == SK_EV_SCRIPT) {
       int m = 0;
-      for(int i = 0; i < ev_n; ++i)               // the socket is writable, whatever the library registered for
-        if((ev_native[i] & EPOLLOUT) && client_fd[ev_idx[i]] >= 0) sk_trace_add(ev_idx[i] ? "O1" : "O0");
+      for(int i = 0; i < ev_n; ++i) {             // what the kernel finds, whatever the library registered for
+        if(client_fd[ev_idx[i]] < 0) continue;
+        char tok[8];
+        if(ev_native[i] & EPOLLOUT) { snprintf(tok, sizeof(tok), "O%d", ev_idx[i]); sk_trace_add(tok); }
+        if(ev_native[i] & EPOLLIN) { snprintf(tok, sizeof(tok), "I%d", ev_idx[i]); sk_trace_add(tok); }
+      }
       for(int i = 0; i < ev_n && m < maxevents; ++i) {
         int idx = ev_idx[i];
         if(!registered[idx]) continue;
         unsigned d = (ev_native[i] & reg_mask[idx]) | (ev_native[i] & (EPOLLHUP | EPOLLERR));
         if(d) { events[m].events = d; events[m].data = reg_data[idx]; ++m; }
       }
+      if(with_intr && m < maxevents) {            // the interrupt raced with the readiness: same batch
+        events[m].events = EPOLLIN; events[m].data.ptr = 0; ++m;
+        phase = 2; intr_seen = 1;
+      }
       if(m) return m;
     } else if(ev_mode == SK_EV_REAL) {
       struct epoll_event tmp[64];
       for(int i = 0; i < NC; ++i)                 // the send queue of the real socket pair is never full
-        if(client_fd[i] >= 0) sk_trace_add(i ? "O1" : "O0");
+        if(client_fd[i] >= 0) {
+          char tok[8]; snprintf(tok, sizeof(tok), "O%d", i); sk_trace_add(tok);
+          int avail = 0;
+          if((ioctl(client_fd[i], FIONREAD, &avail) == 0 && avail > 0) || !peer_open[i]) { snprintf(tok, sizeof(tok), "I%d", i); sk_trace_add(tok); }
+        }
       int c = real_epoll_wait(epfd, tmp, 64, 0);
       int m = 0;
       for(int i = 0; i < c && m < maxevents; ++i)
@@ -247,7 +266,7 @@ extern "C" int epoll_wait(int epfd, struct epoll_event* events, int maxevents, i
     }
   }
   // the interrupt event (Server::interrupt() was called before run(), the eventfd is readable)
-  phase = 2;
+  phase = 2; intr_seen = 1;
   events[0].events = EPOLLIN; events[0].data.ptr = 0;
   return 1;
 }
